@@ -20,7 +20,7 @@ impl Default for Tag { fn default() -> Tag { Tag(7) } }
 impl From<&str> for Cap { fn from(s: &str) -> Cap { Cap(s.to_string()) } }
 impl core::fmt::Display for Cap { fn fmt(&self, f: &mut core::fmt::Formatter) -> core::fmt::Result { core::fmt::Display::fmt(self.0.as_str(), f) } }
 impl AsRef<str> for Cap { fn as_ref(&self) -> &str { self.0.as_str() } }
-// allocation-free copy of the rejected input (length + first 8 bytes, via memcpy - no loop, no hashing): a `String` payload makes
+// allocation-free copy of the rejected input (length + first 8 bytes, copied by unrolled assignments - no loop, no hashing): a `String` payload makes
 // Kani 0.68 report spurious dealloc checks on the empty input, and a hashing loop makes the twins several times slower
 #[derive(Debug, Clone, Copy, PartialEq, Eq)] pub struct PErr { pub len: usize, pub head: [u8; 8] }
 // call counter for C18 ("f is not invoked for inputs that match"); a plain static: an AtomicUsize also triggers the Kani artifact
@@ -29,9 +29,17 @@ pub fn perr_calls() -> usize { unsafe { PERR_CALLS_RAW } }
 pub fn perr(s: &str) -> PErr {
     unsafe { PERR_CALLS_RAW = PERR_CALLS_RAW.wrapping_add(1); }
     let b = s.as_bytes();
-    let n = if b.len() < 8 { b.len() } else { 8 };
     let mut head = [0u8; 8];
-    head[..n].copy_from_slice(&b[..n]);
+    // unrolled on purpose: no loop to unwind, and no (possibly empty) slice copy - `copy_from_slice` on an empty slice makes Kani 0.68
+    // report pointer-offset checks on a dangling pointer
+    if b.len() > 0 { head[0] = b[0]; }
+    if b.len() > 1 { head[1] = b[1]; }
+    if b.len() > 2 { head[2] = b[2]; }
+    if b.len() > 3 { head[3] = b[3]; }
+    if b.len() > 4 { head[4] = b[4]; }
+    if b.len() > 5 { head[5] = b[5]; }
+    if b.len() > 6 { head[6] = b[6]; }
+    if b.len() > 7 { head[7] = b[7]; }
     PErr { len: b.len(), head }
 }
 pub fn dw_u8() -> u8 { 5 }
